@@ -31,8 +31,15 @@ class Out(io.TextIOBase):
     def __init__(self):
         self.n = 0
         self.chunks = []
+        self.fail_at = None       # the k-th write (1-based) and all later
+        self.writes = 0           # ones raise BrokenPipeError
+        self.broken = 0
 
     def write(self, s):
+        self.writes += 1
+        if self.fail_at is not None and self.writes >= self.fail_at:
+            self.broken += 1
+            raise BrokenPipeError("injected: output stream is gone")
         self.n += len(s)
         if len(self.chunks) < 2000:
             self.chunks.append((time.monotonic(), len(s)))
@@ -262,6 +269,10 @@ def build_call(sc):
                             [pt, None],
                             oqupy.PtTebdParameters(dt=dt, epsrel=1e-6),
                             dynamics_sites=[0, 1])
+        if kind == "float_end":
+            # an end step given as 2.0: accepted by int() but the progress
+            # display formats it with {:d} - an input rejected midway
+            return lambda: tebd.compute(float(nsteps), progress_type=prog)
         return lambda: tebd.compute(nsteps, progress_type=prog)
     if api in ("pttebd_multithread", "pttebd_multiprocess"):
         pt = simple_pt(kind if kind in ("shape",) else None,
@@ -291,6 +302,8 @@ def run_fault_scenario(sc, out, before):
     st = sc["_state"]
     st["n"] = 0
     st["fail_at"] = st.get("arm")
+    if (sc.get("fault") or {}).get("kind") == "stdout":
+        out.fail_at = int(sc["fault"]["at"])
     try:
         call()
         res["outcome"] = "returned"
@@ -300,8 +313,9 @@ def run_fault_scenario(sc, out, before):
     except Exception as exc:   # the library's own error for a broken input
         res["outcome"] = "raised:" + type(exc).__name__
     n_return = out.n
-    res["fault_fired"] = bool(sc["_state"]["raised"]) or \
-        (sc.get("fault") or {}).get("kind") in ("cap", "shape")
+    out.fail_at = None            # the observer's stream works again
+    res["fault_fired"] = bool(sc["_state"]["raised"]) or out.broken > 0 or \
+        (sc.get("fault") or {}).get("kind") in ("cap", "shape", "float_end")
     res["user_calls"] = sc["_state"]["n"]
     observe_after(res, out, before, n_return)
     return res
